@@ -30,12 +30,17 @@ type Obj struct {
 }
 
 type Case struct {
-	Kind string `json:"kind"`            // roundtrip | decode | aes
+	Kind string `json:"kind"`            // roundtrip | decode | aes | seq | conc
 	Type string `json:"type,omitempty"`  // claims type (roundtrip, decode) or scalar decoder type (decode)
 	Val  *Obj   `json:"val,omitempty"`   // roundtrip
 	Doc  string `json:"doc,omitempty"`   // decode: the JSON document (text)
 	DocB []byte `json:"doc_b,omitempty"` // decode: the document when it is not valid UTF-8 (native fuzzing only)
 	AES  *AES   `json:"aes,omitempty"`
+	// seq: the steps run one after the other on one goroutine; conc: one step list per goroutine, released together.
+	// Every encoded document is KEPT and judged only after the last step; Dests are the re-used decode destinations.
+	Seq   []Step   `json:"seq,omitempty"`
+	Conc  [][]Step `json:"conc,omitempty"`
+	Dests []Dest   `json:"dests,omitempty"`
 }
 
 func (c Case) doc() []byte {
@@ -71,6 +76,10 @@ func run(c Case) *vkit.Result {
 			return res
 		}
 		runAES(c, res)
+	case "seq":
+		runSteps(c, [][]Step{c.Seq}, false, res)
+	case "conc":
+		runSteps(c, c.Conc, true, res)
 	default:
 		res.Label("malformed-case")
 	}
@@ -368,8 +377,17 @@ func compareDoc(res *vkit.Result, path, typ string, o *Obj, got map[string]any, 
 	}
 }
 
-func runRoundTrip(c Case, res *vkit.Result) {
-	b := bind(c.Type)
+// encPrep: a freshly built library value together with what the case says it holds.
+type encPrep struct {
+	typ    string
+	val    *Obj
+	b      *binding
+	custom func(*Obj) map[string]any
+}
+
+// prepEncode builds the value (nil: building panicked, recorded).
+func prepEncode(typ string, val *Obj, res *vkit.Result) *encPrep {
+	b := bind(typ)
 	effective := map[*Obj]map[string]any{}
 	var fill func(o *Obj)
 	fill = func(o *Obj) {
@@ -379,14 +397,44 @@ func runRoundTrip(c Case, res *vkit.Result) {
 			fill(o.Act)
 		}
 	}
-	fill(c.Val)
+	fill(val)
 	var topCustom map[string]any
-	if pan, stack := guarded(func() { topCustom = build(b, c.Val, res) }); pan != nil {
+	if pan, stack := guarded(func() { topCustom = build(b, val, res) }); pan != nil {
 		res.Fail("C12:panic@"+vkit.FirstLibFrame(stack), "building the value panicked: %v", pan)
+		return nil
+	}
+	effective[val] = topCustom
+	return &encPrep{typ: typ, val: val, b: b, custom: func(o *Obj) map[string]any { return effective[o] }}
+}
+
+// judgeEncoded: out must be the object the statement prescribes for the value, and must decode back to it.
+func judgeEncoded(res *vkit.Result, p *encPrep, out []byte) map[string]any {
+	members, _, dup, ok := parseObject(out)
+	if !ok || dup {
+		res.Fail("C12:encode-not-an-object", "encoded %s is not a JSON object without duplicate members: %s", p.typ, clip(out))
+		return map[string]any{"encoded": string(out)}
+	}
+	got := map[string]any{}
+	for k, r := range members {
+		got[k], _ = parseAny(r)
+	}
+	before := len(res.Viol)
+	compareDoc(res, "", p.typ, p.val, got, p.custom)
+	if len(res.Viol) > before {
+		return map[string]any{"encoded": string(out)}
+	}
+	// decode what was encoded: registered claims and custom claims come back
+	info := judgeDecode(res, p.typ, out, "roundtrip")
+	info["encoded"] = string(out)
+	return info
+}
+
+func runRoundTrip(c Case, res *vkit.Result) {
+	p := prepEncode(c.Type, c.Val, res)
+	if p == nil {
 		return
 	}
-	effective[c.Val] = topCustom
-	custom := func(o *Obj) map[string]any { return effective[o] }
+	b, custom := p.b, p.custom
 
 	// classes
 	collide, collideSet, collideUnset := collisions(c.Type, c.Val, custom)
@@ -421,26 +469,7 @@ func runRoundTrip(c Case, res *vkit.Result) {
 		res.Fail("C12:encode-error", "encoding a %s with JSON-safe claims failed: %v", c.Type, err)
 		return
 	}
-	members, _, dup, ok := parseObject(out)
-	if !ok || dup {
-		res.Fail("C12:encode-not-an-object", "encoded %s is not a JSON object without duplicate members: %s", c.Type, out)
-		return
-	}
-	got := map[string]any{}
-	for k, r := range members {
-		got[k], _ = parseAny(r)
-	}
-	before := len(res.Viol)
-	compareDoc(res, "", c.Type, c.Val, got, custom)
-	if len(res.Viol) > before {
-		res.Info = map[string]any{"encoded": string(out)}
-		return
-	}
-
-	// decode what was encoded: registered claims and custom claims come back
-	info := judgeDecode(res, c.Type, out, "roundtrip")
-	info["encoded"] = string(out)
-	res.Info = info
+	res.Info = judgeEncoded(res, p, out)
 }
 
 // collisions: custom keys that are registered names of the type (top level and actors), split by whether the registered claim is set.
@@ -570,55 +599,65 @@ func runDecode(c Case, res *vkit.Result) {
 	res.Key = fmt.Sprintf("decode|%s|%v", c.Type, forms)
 }
 
-// decodeScalar feeds doc to one of the stand-alone decoder types and returns the canonical value.
-func decodeScalar(typ string, doc []byte) (val any, err error) {
-	switch typ {
+// scalarDest: a variable of one of the stand-alone decoder types (fresh, or re-used for several documents).
+type scalarDest struct {
+	typ  string
+	aud  oidc.Audience
+	tm   oidc.Time
+	locs oidc.Locales
+	loc  oidc.Locale
+	bl   oidc.Bool
+	sda  oidc.SpaceDelimitedArray
+}
+
+// decode feeds doc to the decoder of the variable.
+func (d *scalarDest) decode(doc []byte) (err error) {
+	switch d.typ {
 	case "Audience":
-		var v oidc.Audience
-		err = json.Unmarshal(doc, &v)
-		val = anyList(v)
+		err = json.Unmarshal(doc, &d.aud)
 	case "Time":
-		var v oidc.Time
-		err = json.Unmarshal(doc, &v)
-		if v != 0 {
-			val = float64(v)
-		}
+		err = json.Unmarshal(doc, &d.tm)
 	case "Locales":
-		var v oidc.Locales
-		err = json.Unmarshal(doc, &v)
-		l := make([]string, len(v))
-		for i, t := range v {
+		err = json.Unmarshal(doc, &d.locs)
+	case "Locale":
+		err = json.Unmarshal(doc, &d.loc)
+	case "Bool":
+		err = json.Unmarshal(doc, &d.bl)
+	case "SpaceDelimitedArray":
+		err = json.Unmarshal(doc, &d.sda)
+	case "LocalesText":
+		err = d.locs.UnmarshalText(doc)
+	case "SpaceDelimitedArrayText":
+		err = d.sda.UnmarshalText(doc)
+	}
+	return
+}
+
+// value: the canonical value the variable holds (nil = zero).
+func (d *scalarDest) value() (val any) {
+	switch d.typ {
+	case "Audience":
+		val = anyList(d.aud)
+	case "Time":
+		if d.tm != 0 {
+			val = float64(d.tm)
+		}
+	case "Locales", "LocalesText":
+		l := make([]string, len(d.locs))
+		for i, t := range d.locs {
 			l[i] = t.String()
 		}
 		val = anyList(l)
 	case "Locale":
-		var v oidc.Locale
-		err = json.Unmarshal(doc, &v)
-		if !v.Tag().IsRoot() {
-			val = v.Tag().String()
+		if !d.loc.Tag().IsRoot() {
+			val = d.loc.Tag().String()
 		}
 	case "Bool":
-		var v oidc.Bool
-		err = json.Unmarshal(doc, &v)
-		if v {
+		if d.bl {
 			val = true
 		}
-	case "SpaceDelimitedArray":
-		var v oidc.SpaceDelimitedArray
-		err = json.Unmarshal(doc, &v)
-		val = anyList(v)
-	case "LocalesText":
-		var v oidc.Locales
-		err = v.UnmarshalText(doc)
-		l := make([]string, len(v))
-		for i, t := range v {
-			l[i] = t.String()
-		}
-		val = anyList(l)
-	case "SpaceDelimitedArrayText":
-		var v oidc.SpaceDelimitedArray
-		err = v.UnmarshalText(doc)
-		val = anyList(v)
+	case "SpaceDelimitedArray", "SpaceDelimitedArrayText":
+		val = anyList(d.sda)
 	}
 	return
 }
@@ -644,11 +683,170 @@ func matches(got any, e expect) bool {
 	return false
 }
 
+// dest: a decode destination: a value of a claims type (b) or a variable of a stand-alone decoder type (sc). held: it was
+// filled before (by the case, or by an earlier document), i.e. the next document is decoded into a RE-USED destination.
+type dest struct {
+	typ  string
+	b    *binding
+	sc   *scalarDest
+	held bool
+}
+
+func newDest(typ string) *dest {
+	if _, ok := scalarKind[typ]; ok {
+		return &dest{typ: typ, sc: &scalarDest{typ: typ}}
+	}
+	if b := bind(typ); b != nil {
+		return &dest{typ: typ, b: b}
+	}
+	return nil
+}
+
+// snap: what a value of a claims type holds, in canonical terms, read through the claim table (a deep copy: judging can
+// happen after the value was decoded into again).
+type snap struct {
+	typ       string
+	vals      map[string]any   // plain registered claims (nil = zero)
+	subs      map[string]*snap // act / address (absent = nil pointer)
+	hasClaims bool
+	claims    map[string]any // the exported custom-claims map
+	look      map[string]any // JWTTokenRequest: custom claims by the names asked for
+}
+
+func snapshot(b *binding, keys []string) *snap {
+	s := &snap{typ: b.typ, vals: map[string]any{}, subs: map[string]*snap{}}
+	for i := range b.fields {
+		f := &b.fields[i]
+		if f.sub != nil {
+			if sb := f.sub(false); sb != nil {
+				s.subs[f.name] = snapshot(sb, nil)
+			}
+			continue
+		}
+		v := f.get()
+		if f.kind == kEvents {
+			v = normJSON(v)
+		}
+		s.vals[f.name] = v
+	}
+	if b.getClaims != nil {
+		s.hasClaims = true
+		if m := b.getClaims(); m != nil {
+			s.claims, _ = normJSON(m).(map[string]any)
+		}
+	}
+	if b.lookup != nil {
+		s.look = map[string]any{}
+		for _, k := range keys {
+			if v, ok := b.lookup(k); ok {
+				s.look[k] = normJSON(v)
+			}
+		}
+	}
+	return s
+}
+
+func (s *snap) empty() bool {
+	if s == nil {
+		return true
+	}
+	for _, v := range s.vals {
+		if !isZeroCanon(v) {
+			return false
+		}
+	}
+	return len(s.subs) == 0 && len(s.claims) == 0
+}
+
+// plain: the snapshot as one JSON-level value (messages, equality).
+func (s *snap) plain() any {
+	if s == nil {
+		return nil
+	}
+	out := map[string]any{}
+	for k, v := range s.vals {
+		if !isZeroCanon(v) {
+			out[k] = v
+		}
+	}
+	for k, sub := range s.subs {
+		out[k] = sub.plain()
+	}
+	if len(s.claims) > 0 {
+		out["<custom claims>"] = s.claims
+	}
+	return out
+}
+
+func snapEq(a, b *snap) bool { return jsonEq(a.plain(), b.plain()) }
+
+// decOut: what one decode did (the library call and copies of what the destination held before / holds after).
+type decOut struct {
+	typ    string
+	doc    []byte
+	pan    any
+	stack  string
+	err    error
+	reused bool  // the destination held the result of an earlier step (or the case's initial value)
+	prior  *snap // claims type, re-used destination: content before
+	after  *snap // claims type: content after
+	priorS any   // stand-alone type, re-used variable: value before
+	afterS any   // stand-alone type: value after
+}
+
+// doDecode decodes doc into d (nil: a fresh destination of the type). No judging here: this is all that runs between two
+// library calls of a sequence, and all that runs concurrently in the concurrent sub-check.
+func doDecode(typ string, doc []byte, d *dest) *decOut {
+	if d == nil {
+		d = newDest(typ)
+	}
+	o := &decOut{typ: typ, doc: doc, reused: d.held}
+	var keys []string
+	if d.b != nil && d.b.lookup != nil {
+		if members, order, _, ok := parseObject(doc); ok && members != nil {
+			keys = order
+		}
+	}
+	if d.held {
+		if d.sc != nil {
+			o.priorS = d.sc.value()
+		} else {
+			o.prior = snapshot(d.b, nil)
+		}
+	}
+	d.held = true
+	o.pan, o.stack = guarded(func() {
+		if d.sc != nil {
+			o.err = d.sc.decode(doc)
+		} else {
+			o.err = json.Unmarshal(doc, d.b.ptr)
+		}
+	})
+	if o.pan != nil {
+		return o
+	}
+	if d.sc != nil {
+		o.afterS = d.sc.value()
+	} else {
+		o.after = snapshot(d.b, keys)
+	}
+	return o
+}
+
 // judgeDecode decodes doc into a fresh value of the type and compares with what the statement says about every member.
 func judgeDecode(res *vkit.Result, typ string, doc []byte, ctx string) map[string]any {
+	return judgeDecoded(res, ctx, doDecode(typ, doc, nil))
+}
+
+// judgeDecoded compares the outcome of one decode with what the statement says about every member of the document. Into a
+// re-used destination, encoding/json's documented behaviour is the baseline for what the document does not mention: members
+// absent from the document (and custom claims of earlier documents) keep what the destination held; everything the document
+// does contain must be decoded exactly as into a fresh destination (replaced, not mixed with the old content).
+func judgeDecoded(res *vkit.Result, ctx string, o *decOut) map[string]any {
+	typ, doc := o.typ, o.doc
 	info := map[string]any{}
 	if isTextType(typ) {
-		return judgeText(res, typ, doc, ctx, info)
+		return judgeText(res, o, ctx, info)
 	}
 	valid := json.Valid(doc)
 	grey := !validUTF8(doc) || (valid && hasDupKeys(doc))
@@ -666,22 +864,10 @@ func judgeDecode(res *vkit.Result, typ string, doc []byte, ctx string) map[strin
 	}
 
 	kind, isScalar := scalarKind[typ]
-	var (
-		b    *binding
-		sval any
-		err  error
-	)
-	pan, stack := guarded(func() {
-		if isScalar {
-			sval, err = decodeScalar(typ, doc)
-		} else {
-			b = bind(typ)
-			err = json.Unmarshal(doc, b.ptr)
-		}
-	})
-	if pan != nil {
-		frame := panicFrame(stack)
-		res.Fail("C12:panic@"+frame, "decoding %s into %s panicked: %v", clip(doc), typ, pan)
+	err := o.err
+	if o.pan != nil {
+		frame := panicFrame(o.stack)
+		res.Fail("C12:panic@"+frame, "decoding %s into %s panicked: %v", clip(doc), typ, o.pan)
 		res.Label(ctx + ":panic")
 		info["outcome"] = "panic@" + frame
 		return info
@@ -707,7 +893,7 @@ func judgeDecode(res *vkit.Result, typ string, doc []byte, ctx string) map[strin
 		res.Label(formClass(kind, e))
 		countForm(form)
 		info["forms"] = []string{form}
-		judgeValue(res, ctx, typ, kindName[kind], e, sval, err, doc)
+		judgeValue(res, ctx, typ, kindName[kind], e, o, doc)
 		if e.class == cGrey {
 			res.Grey = true
 		}
@@ -724,7 +910,7 @@ func judgeDecode(res *vkit.Result, typ string, doc []byte, ctx string) map[strin
 		info["forms"] = []string{"top:" + jsonType(v)}
 		if err == nil {
 			res.Label(ctx + ":nonobject-zero")
-			judgeObject(res, ctx, b, &objExpect{typ: typ, members: map[string]expect{}, raw: map[string]json.RawMessage{}}, "")
+			judgeObject(res, ctx, o.after, &objExpect{typ: typ, members: map[string]expect{}, raw: map[string]json.RawMessage{}}, "", o.prior)
 		} else {
 			res.Label(ctx + ":nonobject-error")
 		}
@@ -784,27 +970,24 @@ func judgeDecode(res *vkit.Result, typ string, doc []byte, ctx string) map[strin
 	} else {
 		res.Label(ctx + ":must-accept-ok")
 	}
-	judgeObject(res, ctx, b, oe, "")
+	judgeObject(res, ctx, o.after, oe, "", o.prior)
 	return info
 }
 
 // judgeText: the text decoders get the bare space-delimited text; same expectation as the JSON string form.
-func judgeText(res *vkit.Result, typ string, doc []byte, ctx string, info map[string]any) map[string]any {
+func judgeText(res *vkit.Result, o *decOut, ctx string, info map[string]any) map[string]any {
+	typ, doc := o.typ, o.doc
 	kind := scalarKind[typ]
-	var (
-		sval any
-		err  error
-	)
-	if pan, stack := guarded(func() { sval, err = decodeScalar(typ, doc) }); pan != nil {
-		frame := panicFrame(stack)
-		res.Fail("C12:panic@"+frame, "decoding text %q into %s panicked: %v", clip(doc), typ, pan)
+	if o.pan != nil {
+		frame := panicFrame(o.stack)
+		res.Fail("C12:panic@"+frame, "decoding text %q into %s panicked: %v", clip(doc), typ, o.pan)
 		res.Label(ctx + ":panic")
 		info["outcome"] = "panic@" + frame
 		return info
 	}
 	info["outcome"] = "ok"
-	if err != nil {
-		info["outcome"] = "error: " + err.Error()
+	if o.err != nil {
+		info["outcome"] = "error: " + o.err.Error()
 	}
 	if !validUTF8(doc) {
 		res.Label(ctx + ":invalid-utf8")
@@ -818,14 +1001,28 @@ func judgeText(res *vkit.Result, typ string, doc []byte, ctx string, info map[st
 	res.Label(formClass(kind, e))
 	countForm(form)
 	info["forms"] = []string{strings.Replace(form, ":text-", ":", 1)}
-	judgeValue(res, ctx, typ, kindName[kind], e, sval, err, doc)
+	judgeValue(res, ctx, typ, kindName[kind], e, o, doc)
 	if e.class == cGrey {
 		res.Grey = true
 	}
 	return info
 }
 
-func judgeValue(res *vkit.Result, ctx, typ, kname string, e expect, got any, err error, doc []byte) {
+// heldNote: message suffix naming what a re-used destination held.
+func heldNote(held bool, prior any) string {
+	if !held {
+		return ""
+	}
+	return fmt.Sprintf(" (re-used destination, it held %s before)", canonJSON(prior))
+}
+
+func judgeValue(res *vkit.Result, ctx, typ, kname string, e expect, o *decOut, doc []byte) {
+	got, err := o.afterS, o.err
+	held := o.reused && !isZeroCanon(o.priorS)
+	kept := held && jsonEq(got, o.priorS)
+	if held {
+		res.Label("reuse:" + map[int]string{cDoc: "documented-form", cOther: "other-form", cGrey: "grey-form"}[e.class] + "-over-old-value")
+	}
 	switch e.class {
 	case cDoc:
 		if err != nil {
@@ -833,12 +1030,17 @@ func judgeValue(res *vkit.Result, ctx, typ, kname string, e expect, got any, err
 			return
 		}
 		if !matches(got, e) {
-			res.Fail("C12:decode-wrong-value:"+kname+":"+e.form, "%s decoded into %s gives %s, documented value %s", clip(doc), typ, canonJSON(got), canonJSON(e.want))
+			if kept {
+				res.Fail("C12:reused-destination-keeps-old-value:"+kname, "%s decoded into a %s that held %s leaves %s, documented value %s: what the document says is not taken over",
+					clip(doc), typ, canonJSON(o.priorS), canonJSON(got), canonJSON(e.want))
+			} else {
+				res.Fail("C12:decode-wrong-value:"+kname+":"+e.form, "%s decoded into %s gives %s, documented value %s%s", clip(doc), typ, canonJSON(got), canonJSON(e.want), heldNote(held, o.priorS))
+			}
 		}
 		res.Label(ctx + ":must-accept-ok")
 	case cOther:
-		if err == nil && !isZeroCanon(got) {
-			res.Fail("C12:nondocumented-form-accepted:"+kname+":"+e.form, "%s is not a documented form of %s, but decoding gives %s without error", clip(doc), typ, canonJSON(got))
+		if err == nil && !isZeroCanon(got) && !kept {
+			res.Fail("C12:nondocumented-form-accepted:"+kname+":"+e.form, "%s is not a documented form of %s, but decoding gives %s without error%s", clip(doc), typ, canonJSON(got), heldNote(held, o.priorS))
 		}
 		if err != nil {
 			res.Label(ctx + ":error-allowed")
@@ -848,47 +1050,76 @@ func judgeValue(res *vkit.Result, ctx, typ, kname string, e expect, got any, err
 	}
 }
 
-func judgeObject(res *vkit.Result, ctx string, b *binding, oe *objExpect, path string) {
-	for i := range b.fields {
-		f := &b.fields[i]
+// shallowMerge: b's members over a's (what encoding/json does when it decodes an object into a map that has entries).
+func shallowMerge(a, b any) any {
+	out := map[string]any{}
+	if m, ok := a.(map[string]any); ok {
+		for k, v := range m {
+			out[k] = v
+		}
+	}
+	if m, ok := b.(map[string]any); ok {
+		for k, v := range m {
+			out[k] = v
+		}
+	}
+	return out
+}
+
+// judgeObject: got = what the destination holds after decoding; prior = what it held before (nil: fresh destination).
+func judgeObject(res *vkit.Result, ctx string, got *snap, oe *objExpect, path string, prior *snap) {
+	specs := specsOf(got.typ)
+	byName := map[string]bool{}
+	for _, f := range specs {
+		byName[f.name] = true
+	}
+	for _, f := range specs {
 		e := oe.members[f.name]
-		got := f.get()
+		isSub := f.kind == kAct || f.kind == kAddr
+		gv, gsub := got.vals[f.name], got.subs[f.name]
+		var pv any
+		var psub *snap
+		if prior != nil {
+			pv, psub = prior.vals[f.name], prior.subs[f.name]
+		}
 		kn := kindName[f.kind]
-		where := fmt.Sprintf("member %q of %s", path+f.name, b.typ)
+		where := fmt.Sprintf("member %q of %s", path+f.name, got.typ)
 		rawOf := func() string { return clip(oe.raw[f.name]) }
-		zero := func() bool {
-			if f.sub == nil {
-				return isZeroCanon(got)
-			}
-			sb := f.sub(false)
-			if sb == nil {
-				return true
-			}
-			for j := range sb.fields {
-				if sb.fields[j].get() != nil {
-					return false
-				}
-			}
-			return sb.getClaims == nil || len(sb.getClaims()) == 0
+		var zero, held, kept bool
+		var show, showPrior string
+		if isSub {
+			zero = gsub.empty()
+			held = !psub.empty()
+			kept = held && snapEq(gsub, psub)
+			show, showPrior = canonJSON(gsub.plain()), canonJSON(psub.plain())
+		} else {
+			zero = isZeroCanon(gv)
+			held = prior != nil && !isZeroCanon(pv)
+			kept = held && jsonEq(gv, pv)
+			show, showPrior = canonJSON(gv), canonJSON(pv)
+		}
+		note := ""
+		if held {
+			note = fmt.Sprintf(" (re-used destination, the field held %s before)", showPrior)
+			res.Label("reuse:" + map[int]string{cAbsent: "absent-member", cDoc: "documented-form", cOther: "other-form", cGrey: "grey-form"}[e.class] + "-over-old-value")
 		}
 		switch e.class {
 		case cAbsent:
-			if !zero() {
-				res.Fail("C12:decode-fabricated:"+kn, "%s is absent from the document but the decoded field is %s", where, canonJSON(got))
+			if !zero && !kept {
+				res.Fail("C12:decode-fabricated:"+kn, "%s is absent from the document but the decoded field is %s%s", where, show, note)
 			}
 		case cOther:
-			if !zero() {
-				res.Fail("C12:nondocumented-form-accepted:"+kn+":"+e.form, "%s = %s is not a documented form, but the decoded field is %s and there was no error", where, rawOf(), canonJSON(got))
+			if !zero && !kept {
+				res.Fail("C12:nondocumented-form-accepted:"+kn+":"+e.form, "%s = %s is not a documented form, but the decoded field is %s and there was no error%s", where, rawOf(), show, note)
 			}
 		case cDoc:
 			if e.sub != nil {
-				sb := f.sub(false)
-				if sb == nil {
+				if gsub == nil {
 					res.Fail("C12:decode-wrong-value:"+kn+":object-dropped", "%s = %s is an object but the decoded pointer is nil", where, rawOf())
 					continue
 				}
 				before := len(res.Viol)
-				judgeObject(res, ctx, sb, e.sub, path+f.name+".")
+				judgeObject(res, ctx, gsub, e.sub, path+f.name+".", psub)
 				if e.foldedBy != "" {
 					// whatever differs inside came from the custom claim whose name folds onto this one
 					for i := before; i < len(res.Viol); i++ {
@@ -898,27 +1129,43 @@ func judgeObject(res *vkit.Result, ctx string, b *binding, oe *objExpect, path s
 				}
 				continue
 			}
-			if !matches(got, e) {
+			ok := matches(gv, e)
+			if !ok && held && f.kind == kEvents {
+				// a map: encoding/json adds the members of the document to the entries the map has
+				ok = jsonEq(gv, shallowMerge(pv, e.want))
+			}
+			if !ok {
 				if e.foldedBy != "" {
 					res.Fail(fpFold, "%s = %s does not survive the round trip: the decoded field is %s, taken from the custom claim %q = %s whose name differs only by Unicode case folding",
-						where, rawOf(), canonJSON(got), e.foldedBy, clip(oe.raw[e.foldedBy]))
+						where, rawOf(), show, e.foldedBy, clip(oe.raw[e.foldedBy]))
 					continue
 				}
-				res.Fail("C12:decode-wrong-value:"+kn+":"+e.form, "%s = %s: decoded field is %s, documented value %s", where, rawOf(), canonJSON(got), canonJSON(e.want))
+				if kept {
+					res.Fail("C12:reused-destination-keeps-old-value:"+kn, "%s = %s decoded into a destination whose field held %s: the field is still %s, documented value %s - what the document says is not taken over",
+						where, rawOf(), showPrior, show, canonJSON(e.want))
+					continue
+				}
+				res.Fail("C12:decode-wrong-value:"+kn+":"+e.form, "%s = %s: decoded field is %s, documented value %s%s", where, rawOf(), show, canonJSON(e.want), note)
 			}
 		}
 	}
-	registered := func(k string) bool { return b.field(k) != nil || oe.folded[k] }
-	if b.getClaims != nil {
-		claims := b.getClaims()
+	registered := func(k string) bool { return byName[k] || oe.folded[k] }
+	if got.hasClaims {
+		claims := got.claims
 		for _, k := range sortedKeys(claims) {
 			r, ok := oe.raw[k]
 			if !ok {
-				res.Fail("C12:claims-fabricated", "custom claims of %s%s contain %q = %s, which the document does not contain", path, b.typ, k, canonJSON(claims[k]))
+				if prior != nil {
+					// an entry the map had before: encoding/json keeps the entries of a map it decodes into
+					if old, had := prior.claims[k]; had && jsonEq(claims[k], old) {
+						continue
+					}
+				}
+				res.Fail("C12:claims-fabricated", "custom claims of %s%s contain %q = %s, which the document does not contain", path, got.typ, k, canonJSON(claims[k]))
 				continue
 			}
 			if pv, _ := parseAny(r); !jsonEq(claims[k], pv) {
-				res.Fail("C12:claims-altered", "custom claims of %s%s have %q = %s, the document says %s", path, b.typ, k, canonJSON(claims[k]), clip(r))
+				res.Fail("C12:claims-altered", "custom claims of %s%s have %q = %s, the document says %s", path, got.typ, k, canonJSON(claims[k]), clip(r))
 			}
 		}
 		for k, r := range oe.raw {
@@ -926,11 +1173,11 @@ func judgeObject(res *vkit.Result, ctx string, b *binding, oe *objExpect, path s
 				continue
 			}
 			if _, ok := claims[k]; !ok {
-				res.Fail("C12:custom-claim-lost", "custom claim %q = %s of %s%s is missing after decoding", k, clip(r), path, b.typ)
+				res.Fail("C12:custom-claim-lost", "custom claim %q = %s of %s%s is missing after decoding", k, clip(r), path, got.typ)
 			}
 		}
 	}
-	if b.lookup != nil {
+	if got.look != nil {
 		for k, r := range oe.raw {
 			if registered(k) {
 				continue
@@ -939,8 +1186,8 @@ func judgeObject(res *vkit.Result, ctx string, b *binding, oe *objExpect, path s
 			if pv == nil {
 				continue
 			}
-			if v, ok := b.lookup(k); !ok || !jsonEq(v, pv) {
-				res.Fail("C12:custom-claim-lost", "custom claim %q = %s of %s is %s after decoding", k, clip(r), b.typ, canonJSON(v))
+			if v, ok := got.look[k]; !ok || !jsonEq(v, pv) {
+				res.Fail("C12:custom-claim-lost", "custom claim %q = %s of %s is %s after decoding", k, clip(r), got.typ, canonJSON(v))
 			}
 		}
 	}
@@ -1017,6 +1264,9 @@ func TestFormsEnumerated(t *testing.T) {
 			for _, form := range append(append([]string{}, formPools[f.kind]...), genericForms...) {
 				try(Case{Kind: "decode", Type: typ, Doc: "{" + q(f.name) + ":" + form + "}"})
 				try(Case{Kind: "decode", Type: typ, Doc: "{\"custom\":[1,\"x\"]," + q(f.name) + ":" + form + ",\"zz\":{\"k\":null}}"})
+				// the same member into a destination in which every claim holds a value, and then a second time into that destination
+				doc := "{" + q(f.name) + ":" + form + "}"
+				try(Case{Kind: "seq", Dests: []Dest{{Type: typ, Pre: fullObj(typ, 0)}}, Seq: []Step{{Op: "dec", Dest: 1, Doc: doc}, {Op: "dec", Dest: 1, Doc: doc}}})
 			}
 		}
 	}
@@ -1030,9 +1280,57 @@ func TestFormsEnumerated(t *testing.T) {
 				form = s
 			}
 			try(Case{Kind: "decode", Type: typ, Doc: form})
+			// every form after a documented one, in one variable
+			for _, first := range reuseFirst[scalarKind[typ]] {
+				if isTextType(typ) {
+					json.Unmarshal([]byte(first), &first)
+				}
+				try(Case{Kind: "seq", Dests: []Dest{{Type: typ}}, Seq: []Step{{Op: "dec", Dest: 1, Doc: first}, {Op: "dec", Dest: 1, Doc: form}}})
+			}
 		}
 	}
 	rec.SetExtra("enumerated_documents", n)
+}
+
+// reuseFirst: per stand-alone decoder kind, the document that fills the variable before the enumerated form is decoded into it.
+var reuseFirst = map[fkind][]string{
+	kAud: {`["old-a","old-b"]`}, kTime: {`1234567890`}, kLocales: {`"it nl"`}, kLocale: {`"it"`}, kXBool: {`true`}, kSDA: {`"old1 old2"`},
+}
+
+// fullObj: a value of the type in which every registered claim is set (to values no pool or grammar produces), with custom claims and actors.
+func fullObj(typ string, depth int) *Obj {
+	o := &Obj{Reg: map[string]any{}, Custom: map[string]any{"old-custom": "x", "old-list": []any{float64(1)}}}
+	for _, f := range specsOf(typ) {
+		switch f.kind {
+		case kStr:
+			o.Reg[f.name] = "old-" + f.name
+		case kTime:
+			o.Reg[f.name] = float64(1234567890)
+		case kAud:
+			o.Reg[f.name] = []any{"old-a", "old-b"}
+		case kSDA:
+			o.Reg[f.name] = []any{"old1", "old2"}
+		case kStrs:
+			o.Reg[f.name] = []any{"old-amr"}
+		case kBool, kXBool:
+			o.Reg[f.name] = true
+		case kLocale:
+			o.Reg[f.name] = "it"
+		case kAddr:
+			m := map[string]any{}
+			for _, k := range addrKeys {
+				m[k] = "old-" + k
+			}
+			o.Reg[f.name] = m
+		case kEvents:
+			o.Reg[f.name] = map[string]any{"old-event": map[string]any{}}
+		case kAct:
+			if depth < 2 {
+				o.Act = fullObj("actor", depth+1)
+			}
+		}
+	}
+	return o
 }
 
 // ---- native fuzzing (thorough tier): bytes -> (decoder type, document) ------------------------------------
